@@ -5,6 +5,10 @@
 //	c17.sites    implementation: REAL server (fresh child per case), configuration delivered like c17.filter; answer
 //	             S=<mask> A=<mask>: per file of the workspace, scanned by the directory walk (the client holds
 //	             diagnostics of it) / accepted by the per-file predicate IsNeedHandle (didOpen+didChange probe)
+//	c17.live     implementation: REAL server (fresh child per case), a history of unsaved edits (didOpen + didChange to a
+//	             text with syntax errors / to a clean text) and settings changes; answer = the client's view after
+//	             initialize and after every step ("=" where it did not change), joined by "|"
+//	c17.syn      oracle: the syntax errors (line:col) the everything-enabled live analysis reports for probe text k
 //	c17.raw      oracle: the everything-enabled run (luahelper.json: nothing ignored, types 22..29 opened) over the
 //	             files that are analysed ("<ws> <mask>"); the other files are excluded by their literal names
 //	c17.re       oracle: Go regexp called directly on every (pattern, subject) pair of the case (subjects: absolute
@@ -347,6 +351,162 @@ func c17SitesChildRun(line string) string {
 	return "S=" + string(scanned) + " A=" + string(accepted)
 }
 
+// ---- c17.live: unsaved buffers and settings changes ----
+
+// the texts an unsaved buffer is changed to (index k of the script steps b<i>.<k> / B<i>.<k>); every one has at least
+// one syntax error
+var c17LiveTexts = []string{
+	"local function h(\n",
+	"x = = 1\n",
+	"local a = 1\nif a\nend\n",
+	"return return\n",
+	"\n\nfor i = 1 do\n",
+	"local t = {\n",
+}
+
+// a text without any syntax error
+const c17LiveClean = "local zz = 1\nreturn zz\n"
+
+func c17LiveChild(line string) string {
+	return c17Answer(c17LiveChildRun(line))
+}
+
+// script (7th field): steps separated by ","
+//
+//	b<i>.<k>  didOpen of file i (its text on disk) followed by didChange to probe text k
+//	B<i>.<k>  didChange only (the file was opened by an earlier step)
+//	g<i>      didOpen + didChange to the clean text;  G<i>  didChange only
+//	c<j>      workspace/didChangeConfiguration number j of the case's list
+func c17LiveChildRun(line string) string {
+	c := c17ParseCase(line)
+	ws := c17CheckWs(c)
+	if len(c.rest) < 1 {
+		return "BAD-CASE script"
+	}
+	if !strings.HasPrefix(c.root, c17TmpRoot) || strings.Contains(c.root, "..") {
+		return "BAD-CASE root"
+	}
+	lock := c17LockRoot(c.root)
+	defer func() {
+		os.RemoveAll(c.root)
+		if lock != nil {
+			lock.Close()
+		}
+	}()
+	if err := c17WriteWorkspace(c.root, ws, nil); err != nil {
+		return "BAD-CASE " + err.Error()
+	}
+	if c.js != nil {
+		if c.js.entry {
+			return "BAD-CASE entry files are outside the modelled fragment"
+		}
+		if err := ioutil.WriteFile(filepath.Join(c.root, "luahelper.json"), c.js.content(), 0644); err != nil {
+			return "BAD-CASE " + err.Error()
+		}
+	}
+	s := c17Start(c.root)
+	if r := s.initialize(c.c0.initOptions()); r != "OK" {
+		if strings.HasPrefix(r, "ERR") {
+			return "INIT-ERROR"
+		}
+		return "INIT-" + r
+	}
+	views := []string{c17DiagString(s.snapshot())}
+	last := views[0]
+	if c.rest[0] != "-" {
+		for _, st := range strings.Split(c.rest[0], ",") {
+			if len(st) < 2 {
+				return "BAD-CASE step " + st
+			}
+			arg := strings.Split(st[1:], ".")
+			n, err := strconv.Atoi(arg[0])
+			if err != nil || n < 0 {
+				return "BAD-CASE step " + st
+			}
+			switch st[0] {
+			case 'b', 'B', 'g', 'G':
+				if n >= len(c.files) {
+					return "BAD-CASE step " + st
+				}
+				text := c17LiveClean
+				if st[0] == 'b' || st[0] == 'B' {
+					if len(arg) != 2 {
+						return "BAD-CASE step " + st
+					}
+					k, err := strconv.Atoi(arg[1])
+					if err != nil || k < 0 || k >= len(c17LiveTexts) {
+						return "BAD-CASE step " + st
+					}
+					text = c17LiveTexts[k]
+				}
+				f := c.files[n]
+				if st[0] == 'b' || st[0] == 'g' {
+					s.didOpen(f, ws[f])
+				}
+				s.didChangeFull(f, text)
+				if r := s.fence(); r != "OK" {
+					return "STEP-" + r
+				}
+			case 'c':
+				if n >= len(c.changes) {
+					return "BAD-CASE step " + st
+				}
+				if r := s.changeConfiguration(c.changes[n].settings()); r != "OK" {
+					return "CHANGE-" + r
+				}
+			default:
+				return "BAD-CASE step " + st
+			}
+			v := c17DiagString(s.snapshot())
+			if v == last {
+				views = append(views, "=")
+			} else {
+				views = append(views, v)
+				last = v
+			}
+		}
+	}
+	return strings.Join(views, "|")
+}
+
+// c17.syn: "<k>" -> the syntax errors of probe text k as the live analysis of an unsaved buffer reports them with every
+// check enabled: "<line>:<col>" separated by "." (one clean file, didOpen + didChange)
+func c17SynChildRun(line string) string {
+	k, err := strconv.Atoi(strings.TrimSpace(line))
+	if err != nil || k < 0 || k >= len(c17LiveTexts) {
+		return "BAD-CASE"
+	}
+	root := fmt.Sprintf("%ssyn/%d", c17TmpRoot, os.Getpid())
+	defer os.RemoveAll(root)
+	if err := c17WriteWorkspace(root, map[string]string{"p.lua": c17LiveClean}, nil); err != nil {
+		return "BAD-CASE " + err.Error()
+	}
+	j := &c17JSON{show: 1, ign: []int{}, open: []int{22, 23, 24, 25, 26, 27, 28, 29}, ih: []string{}, ie: []string{}}
+	if err := ioutil.WriteFile(filepath.Join(root, "luahelper.json"), j.content(), 0644); err != nil {
+		return "BAD-CASE " + err.Error()
+	}
+	s := c17Start(root)
+	if r := s.initialize(map[string]interface{}{"LocalRun": false}); r != "OK" {
+		return "SYN-INIT-" + r
+	}
+	s.didOpen("p.lua", c17LiveClean)
+	s.didChangeFull("p.lua", c17LiveTexts[k])
+	if r := s.fence(); r != "OK" {
+		return "SYN-" + r
+	}
+	parts := []string{}
+	for _, d := range s.snapshot() {
+		if d.File != "p.lua" || d.Type != 1 {
+			return "SYN-UNEXPECTED " + c17DiagString(s.snapshot())
+		}
+		parts = append(parts, fmt.Sprintf("%d:%d", d.Line, d.Col))
+	}
+	if len(parts) == 0 {
+		return "SYN-NONE"
+	}
+	return strings.Join(parts, ".")
+}
+
 func c17RawChild(line string) string {
 	return c17Answer(c17RawChildRun(line))
 }
@@ -483,6 +643,15 @@ func init() {
 	register("c17.sites", func(line string) string {
 		c := c17ParseCase(line)
 		return c17Spawn("c17.siteschild", line, c.root)
+	})
+	register("c17.livechild", c17LiveChild)
+	register("c17.live", func(line string) string {
+		c := c17ParseCase(line)
+		return c17Spawn("c17.livechild", line, c.root)
+	})
+	register("c17.synchild", func(line string) string { return c17Answer(c17SynChildRun(line)) })
+	register("c17.syn", func(line string) string {
+		return c17Spawn("c17.synchild", line, "")
 	})
 	register("c17.raw", func(line string) string {
 		return c17Spawn("c17.rawchild", line, "")
